@@ -606,6 +606,8 @@ def prop_fit(spec, rec):
         labels.add("starts_in_rampdown")
     if 60 % period:
         labels.add("period_not_dividing_60")
+    if stay > 4000:
+        labels.add("stay_of_more_than_4000_periods")
     rec.maximum("fit_error_kwh", abs(got - req))
     rec.case(spec, labels, req < 0.5 * deliverable or bool(60 % period))
 
@@ -615,6 +617,9 @@ def fit_cases(draw):
     V = draw(st.sampled_from([120.0, 208.0, 240.0, 277.0]))
     period = draw(st.sampled_from([1, 5, 5, 7, 8, 9, 10, 15, 45, 60]))
     stay = draw(st.one_of(st.integers(1, 12), st.integers(1, 300)))
+    if draw(st.sampled_from([False] * 14 + [True])):
+        # a car left at the airport: days to months of 1- to 15-minute periods
+        stay = draw(st.one_of(st.integers(301, 6000), st.integers(4000, 40000)))
     deliverable = 32 * V / 1000 * stay * period / 60
     frac = draw(st.one_of(st.floats(0.001, 1.0), st.sampled_from([0.001, 0.01, 0.5, 0.9, 0.999, 1.0])))
     req = round(min(deliverable, 110.0) * frac, 6)
@@ -626,7 +631,7 @@ def subchecks(tier):
         Given("documents", doc_cases(), prop_documents, quick=1500, thorough=200000, floors={"max_len_cap_applied": 0.076, "force_feasible_cap_applied": 0.1, "fit": 0.07, "sub_second": 0.2, "instant_on_period_boundary": 0.057, "zero_period_stay": 0.03, "zoneinfo_session_across_dst_with_max_len": 0.01, "tz_zoneinfo": 0.089}),
         Given("stochastic", stochastic_cases(), prop_stochastic, quick=800, thorough=100000, floors={"invalid_row": 0.058, "multi_day": 0.258, "empty_day": 0.1, "fit": 0.07, "max_len_cap_applied": 0.076, "integer_sample_matrix": 0.1}),
         Given("clipping", clipping_cases(), prop_clipping, quick=400, thorough=40000, floors={"some_value_clipped": 0.3}, jobs_quick=2),
-        Given("capacity_fit", fit_cases(), prop_fit, quick=1500, thorough=200000, floors={"small_request": 0.2, "period_not_dividing_60": 0.15, "starts_in_rampdown": 0.1}),
+        Given("capacity_fit", fit_cases(), prop_fit, quick=1500, thorough=200000, floors={"small_request": 0.2, "period_not_dividing_60": 0.15, "starts_in_rampdown": 0.1, "stay_of_more_than_4000_periods": 0.01}),
     ]
 
 
